@@ -188,7 +188,7 @@ def sessStep (s : S) (f : List String) : S × List String :=
   | ["mstate"] =>
     let link := match s.link with | .pending => "pending" | .down => "down" | .live => "live" | .closed => "closed"
     let connOpen := match s.conn with | some c => !c.rd.closed | none => false
-    (s, [s!"mstate link={link} parked={s.parked} readConn={s.readConn} connOpen={connOpen} noClient={s.noClient} owed={!s.pendingAck.isEmpty} closed={s.connSemClosed} waiters={s.waiters.length}"])
+    (s, [s!"mstate link={link} parked={s.parked} readConn={s.readConn} connOpen={connOpen} noClient={s.noClient} owed={!s.pendingAck.isEmpty} closed={s.connSemClosed} waiters={s.waiters.length} lockq={s.lockq.length}"])
   | ["brk"] =>
     let s := { s with prefeed := [], dials := [], fSave := false, fDel := false, fLoad := false }
     match s.conn with
@@ -254,6 +254,8 @@ def sessStep (s : S) (f : List String) : S × List String :=
     let (s, res) := callDone s tag r
     done s res
   | ["quit", tag] =>
+    -- inside conn.Write the quit channel is not looked at; afterwards it races with the response
+    if s.held.any (·.1 == tag) then (s, ["unsupported quit of the request inside conn.Write"]) else
     match s.quit tag with
     | (s, some e) => done (s.emit (.ret tag e)) []
     | (s, none) => done s [s!"quit {tag} unknown"]
